@@ -980,8 +980,8 @@ V("d-c12-choice-recorded", "C12", "fire", GE, "            intervention = list(r
 V("d-c20-null-nonzero", "C20", "fire", FU, "def null(*args):\n    return 0", "def null(*args):\n    return 0 if not args else 0 * args[0]", rule="CONST.null", what="null is no longer the constant 0", accept_inconclusive=True)
 V("d-c19-store-before-checks", "C19", "fire", SE, "        if not isinstance(data, list):\n            raise TypeError(_DATA_TYPE_ERROR)\n", "        self.graph = (graph != 0).astype(int)\n        if not isinstance(data, list):\n            raise TypeError(_DATA_TYPE_ERROR)\n", rule="CONTRACT.before-stores", what="an attribute is stored before the data checks")
 V("d-c19-delegation-late", "C19", "fire", SE, "        super().__init__(graph, data, verbose)\n", "        self._random_forests = None\n        super().__init__(graph, data, verbose)\n", rule="CONTRACT.delegated-init", what="state is set before the argument checks of the base class ran")
-V("d-c12-one-loop", "C12", "fire", GE, "    if replace:\n        interventions = []\n        targets = list(range(p))\n        for i, k in enumerate(range(K)):\n            intervention = list(rng.choice(targets, size=sizes[i], replace=False))\n            interventions.append(intervention)\n    else:\n",
-  "    if replace:\n        interventions = [list(rng.choice(list(range(p)), size=sizes[i], replace=False)) for i in range(K)]\n    else:\n", rule="COUNT.loops", what="one of the two sampling loops replaced by a comprehension", accept_inconclusive=True)
+V("d-c12-one-loop", "C12", "silent", GE, "    if replace:\n        interventions = []\n        targets = list(range(p))\n        for i, k in enumerate(range(K)):\n            intervention = list(rng.choice(targets, size=sizes[i], replace=False))\n            interventions.append(intervention)\n    else:\n",
+  "    if replace:\n        interventions = [list(rng.choice(list(range(p)), size=sizes[i], replace=False)) for i in range(K)]\n    else:\n", what="one of the two sampling loops replaced by a comprehension (read as the loop it abbreviates since the refactor round)")
 V("d-c05-ctor-roles", "C05", "fire", ND, "        self.mean = mean.copy()\n        self.covariance = covariance.copy()\n", "        self.mean = np.diag(covariance).copy()\n        self.covariance = covariance.copy()\n", rule="CTOR.roles", what="mean attribute filled from the covariance")
 V("d-c03-precheck-false-rejection", "C03", "fire", UT, "    if only_undirected(A).sum() > 0:\n        raise ValueError(\"The given graph is not a DAG\")", "    if np.tril(A).sum() > 0:\n        raise ValueError(\"The given graph is not a DAG\")", rule="CYCLES", what="pre-check rejects every graph with an edge from a higher to a lower index", accept_inconclusive=True)
 V("d-c10-empty-I-touches", "C10", "fire", UT, "    for i in I:\n        directed_edges += [(i, j) for j in ch(i, G)]\n        directed_edges += [(j, i) for j in pa(i, G)]\n", "    for i in range(len(G)):\n        directed_edges += [(i, j) for j in ch(i, G)]\n        directed_edges += [(j, i) for j in pa(i, G)]\n", rule="DEPENDS", what="every node treated as a target: I is ignored")
@@ -1362,3 +1362,6 @@ V("rf-c16-vs-comprehension-unordered", "C16", "fire", UT, _C16_VS, "    vstructs
 V("rf-c16-ew-dictcomp", "C16", "silent", UT, _C16_EW, "    return {(i, j): W[i, j] for (i, j) in zip(fro, to)}\n", what="dict comprehension")
 V("rf-c16-ew-dictcomp-transposed", "C16", "fire", UT, _C16_EW, "    return {(i, j): W[j, i] for (i, j) in zip(fro, to)}\n", rule="PW", what="dict comprehension reading the transposed entry")
 V("rf-c16-ew-dictcomp-swapped-key", "C16", "fire", UT, _C16_EW, "    return {(j, i): W[i, j] for (i, j) in zip(fro, to)}\n", rule="PW", what="dict comprehension with swapped key", accept_inconclusive=True)
+V("rf-c12-extra-draw", "C12", "fire", GE, "        targets = list(range(p))\n        for i, k in enumerate(range(K)):\n", "        targets = list(rng.choice(list(range(p)), size=p, replace=False))\n        for i, k in enumerate(range(K)):\n", rule="COUNT.loops", what="a third draw outside the sampling loops")
+V("rf-c12-comp-K-plus-one", "C12", "fire", GE, "    if replace:\n        interventions = []\n        targets = list(range(p))\n        for i, k in enumerate(range(K)):\n            intervention = list(rng.choice(targets, size=sizes[i], replace=False))\n            interventions.append(intervention)\n    else:\n",
+  "    if replace:\n        interventions = [list(rng.choice(list(range(p)), size=sizes[i], replace=False)) for i in range(K - 1)]\n    else:\n", rule="COUNT.K", what="comprehension form producing K - 1 interventions")
